@@ -21,7 +21,13 @@ EXHAUSTIVE = {"quick": False, "thorough": True}
 TRUSTED_BASE = ["collision-freeness of BLAKE3 is a hypothesis (Function.Injective blake) of the separation theorem, not an axiom",
                 "Base/Blake3.lean (Lean BLAKE3, 32-byte length proved: sum256_length) is used by the judge and compared with the vendored Go BLAKE3 "
                 "only through seqhash.Hash (the form cases); there is no separate digest op"]
-ASSUMPTIONS = ["BLAKE3 has no collisions among the inputs explored (hypothesis of hash_inj_partial)",
+ASSUMPTIONS = ["false-alarm rule for known finding C05-dna-u-strand (the model mirrors the defect): on DNA inputs containing U, replies that differ "
+               "from the model but satisfy the property under a repaired reading - the input is rejected (the statement lets the DNA alphabet "
+               "exclude U), or it is hashed in the v1 form of the sequence with U read as T (as under RNA); for a partition family: exactly the "
+               "words with U rejected and the rest partitioned right, or partition by hash = brute-force orbit partition of the U->T-folded words - "
+               "are judged PASS and counted as drift (class suffix /kf-repaired), not as a correspondence DIFF; when the judge fails there the "
+               "usual rules apply (Driver/C05.lean, same rule in Driver/C04.lean)",
+               "BLAKE3 has no collisions among the inputs explored (hypothesis of hash_inj_partial)",
                "'sequence' in the separation clause means the normalised sequence: upper-cased (C04's case clause) and, under type RNA, with U read "
                "as T (the first statements of Hash identify the two spellings under RNA by design; Props/C05 rna_reads_u_as_t)",
                "non-ASCII input is rejected by the first statement of Hash (modelled explicitly); on ASCII the model's upper-casing is Go's strings.ToUpper"]
@@ -33,10 +39,10 @@ PARTIAL = ["separation clause: hash_inj at full strength is REFUTED on the model
            "for both - an upper bound on the collision set) / hash_collision_of_residue (the converse: that residue always collides), which "
            "together characterise the collisions exactly. The driver's class predicate knownSep is the residue without the 'hashed strand' "
            "conjuncts: necessary for a collision, not sufficient (AAU/AAT), applied to observed failing pairs only, and the kf tag also requires "
-           "implementation = model on every word. Z and all other letters are covered.",
+           "implementation = model on every word. Z is covered by the separation theorems (nothing collides with Z: injectivity of the regenerated complement table); the judge does not judge the STRAND clauses on double-stranded inputs containing Z (class strand-undefined: the property defines no other strand for Z, which is not a nucleotide code; correspondence with the model is still enforced there).",
            "completeness (same molecule => same hash; with C04 it makes hash partition = orbit partition): REFUTED in the same class "
            "(hash_same_molecule_dna_u_witness: CUC and GAG, linear double-stranded DNA, GAG = rc CUC, different hashes for every injective digest). "
-           "Proved: hash_same_molecule_partial under 'double-stranded DNA inputs contain no U' (Z covered).",
+           "Proved: hash_same_molecule_partial under 'double-stranded DNA inputs contain no U' and 'double-stranded inputs contain no Z' (the property defines no other strand for Z; the theorem does not depend on what the complement table answers for it).",
            "Form, hex length and the three rejection clauses are proved in full."]
 TIMEOUT_MS = 120000
 
